@@ -10,8 +10,9 @@ from harness.common import Check, draft_classes, import_lib, pmap
 
 URL = {"r1": "http://x.invalid/r1.json", "r2": "http://x.invalid/r2.json", "s": "http://x.invalid/s.json",
        "t": "http://x.invalid/t.json", "meta": "http://json-schema.org/draft-07/schema"}
-# r2 is a legal but falsy document; t is supplied in the store under a key with a trailing "#" (its own id)
-DOC = {"r1": {"definitions": {"a": {"type": "integer"}}}, "r2": {},
+# r2 is a legal but falsy document; t is supplied in the store under a key with a trailing "#" (its own id); r1 DECLARES
+# an id that is not where it was retrieved from (it names r2's URL): a document is known by its retrieval URL only
+DOC = {"r1": {"$id": "http://x.invalid/r2.json", "id": "http://x.invalid/r2.json", "definitions": {"a": {"type": "integer"}}}, "r2": {},
        "s": {"definitions": {"a": {"type": "null"}}}, "t": {"$id": "http://x.invalid/t.json#", "definitions": {"a": {"type": "string"}}}}
 PTR = {"r1": "#/definitions/a", "r2": "#/definitions/a", "s": "#/definitions/a", "t": "#/definitions/a",
        "meta": "#/definitions/nonNegativeInteger"}
@@ -110,7 +111,7 @@ def main(args):
     stub_network(js)
     nops = 3 if quick else 4
     ck.rule = ("spec side: TLC model-checks spec/Resolver (invariants FetchOnce, StoreStable, LocalNeverFetched, StoreSound; "
-               "action property AnswersTransparent) over all histories of <= %d resolutions of 20 URLs (2 remote documents one of them empty, two "
+               "action property AnswersTransparent) over all histories of <= %d resolutions of 20 URLs (2 remote documents -- one of them empty, the other declaring the first one's URL as its own id --, two "
                "store documents one keyed with a trailing '#', a bundled metaschema x spellings: no fragment, '#', existing pointer, dangling pointer) for 18 "
                "configurations (cache_remote on/off x lru / pass-through / evicting caches x handler modes ok, fail-once, "
                "fail-always) and exports every maximal history with the expected answer, handler-call count and store after "
